@@ -82,6 +82,30 @@ theorem enqs_append (es fs : List Ev) : enqs (es ++ fs) = enqs es ++ enqs fs := 
   | nil => rfl
   | cons e es ih => cases e <;> simp [enqs, ih]
 
+/-! ### Judging a sequential (quiescent) use of the queue
+
+Between two calls of a single-threaded client every PutOne has completed, so the abstract queue
+is fully determined: a poll of the writer (NextWriteCmd / WaitForWrite) must return the head of
+`pending` whenever there is one, and the reader's NextResultCh — which pipe.go calls exactly
+when the reply of the oldest in-flight command has arrived — must find the head of `written`. -/
+
+def seqPut (q : Q) (c : Nat) : Q × String :=
+  ({ q with pending := q.pending ++ [(c, c)] }, "ok")
+
+def seqNext (q : Q) (r : Option Nat) : Q × String :=
+  match r with
+  | none => if q.pending.isEmpty then (q, "ok") else (q, "reject:queued-command-not-handed-to-writer")
+  | some c => match step q (.deq c) with
+    | some q' => (q', "ok")
+    | none => (q, "reject:not-fifo")
+
+def seqRes (q : Q) (r : Option Nat) : Q × String :=
+  match r with
+  | none => if q.written.isEmpty then (q, "ok") else (q, "reject:reply-slot-of-in-flight-command-not-found")
+  | some c => match step q (.fin c c) with
+    | some q' => (q', "ok")
+    | none => (q, "reject:completion-out-of-order")
+
 /-! ### Checker for observed (black-box) histories
 
 The correspondence harness runs the real queue with P caller goroutines, one writer and one
